@@ -509,6 +509,8 @@ func c14Stress(c *evid.Ctx, seed int64) {
 	stop := make(chan struct{})
 	before := e.l.Clone()
 	var acked []*raft.Log
+	truncating := seed%2 == 0
+	delFirst := before.First // only the writer goroutine touches it until wg is done
 	// one writer
 	wg.Add(1)
 	go func() {
@@ -520,6 +522,19 @@ func c14Stress(c *evid.Ctx, seed int64) {
 		}()
 		next := before.Last + 1
 		for i := 0; ; i++ {
+			if truncating && i%4 == 3 && delFirst < before.Last/2 {
+				// a head truncation: states are replaced and finalizers queued while Close races
+				err := e.w.DeleteRange(delFirst, delFirst)
+				if err == nil {
+					delFirst++
+				} else if errors.Is(err, wal.ErrClosed) {
+					return
+				} else {
+					bad("C14:wrong-error:stress-DeleteRange", fmt.Sprintf("DeleteRange racing Close returned %q", err))
+					return
+				}
+				continue
+			}
 			lg := gen.Entry(rand.New(rand.NewSource(seed+int64(i))), next, "st", 30+i%60)
 			err := e.w.StoreLogs([]*raft.Log{lg})
 			if err == nil {
@@ -557,6 +572,10 @@ func c14Stress(c *evid.Ctx, seed int64) {
 					_, err = e.w.LastIndex()
 				case 2:
 					idx := uint64(1 + rr.Intn(int(before.Last)))
+					if truncating {
+						// stay above what the writer may truncate away
+						idx = before.Last/2 + 1 + uint64(rr.Intn(int(before.Last-before.Last/2)))
+					}
 					var l raft.Log
 					err = e.w.GetLog(idx, &l)
 					if err == nil {
@@ -598,7 +617,16 @@ func c14Stress(c *evid.Ctx, seed int64) {
 	hooks.Forget(e.w)
 	c.Count("stress_runs", 1)
 	c.Count("stress_acked_appends", int64(len(acked)))
+	if e.disk != nil {
+		if f, m := e.disk.OpenHandles(); f != 0 || m != 0 {
+			bad("C14:handles-leaked", fmt.Sprintf("stress: %d file handles / %d meta stores still open after Close returned and every racing call finished", f, m))
+		}
+	}
 	want := before.Clone()
+	if delFirst > before.First {
+		want.DeleteRange(before.First, delFirst-1)
+		c.Count("stress_acked_truncations", int64(delFirst-before.First))
+	}
 	if len(acked) > 0 {
 		want.Append(acked, 1, true)
 	}
@@ -698,4 +726,21 @@ func runC14(c *evid.Ctx) {
 	wg.Wait()
 	remove()
 	c.Extra("hook_hits_stress", ctl.Hits())
+	// the same at full speed, no perturbation: windows that have no hook point are only
+	// reachable when nothing slows the racing goroutines down
+	jobs2 := make(chan int64, 16)
+	for i := 0; i < 8; i++ {
+		wg.Add(1)
+		go func() {
+			defer wg.Done()
+			for s := range jobs2 {
+				c14Stress(c, s)
+			}
+		}()
+	}
+	for i := 0; i < n; i++ {
+		jobs2 <- c.Seed*104729 + int64(i)
+	}
+	close(jobs2)
+	wg.Wait()
 }
